@@ -398,12 +398,13 @@ func (stub *stub) Start(ctx context.Context) (retErr error) {
 		return fmt.Errorf("failed to multiplex ttrpc client connection: %w", err)
 	}
 
+	var rpcc *ttrpc.Client
 	clientOpts := []ttrpc.ClientOpts{
 		ttrpc.WithOnClose(func() {
-			stub.connClosed()
+			stub.connClosed(rpcc)
 		}),
 	}
-	rpcc := ttrpc.NewClient(conn, append(clientOpts, stub.clientOpts...)...)
+	rpcc = ttrpc.NewClient(conn, append(clientOpts, stub.clientOpts...)...)
 	defer func() {
 		if retErr != nil {
 			rpcc.Close()
@@ -579,10 +580,13 @@ func (stub *stub) register(ctx context.Context) error {
 }
 
 // Handle a lost connection.
-func (stub *stub) connClosed() {
+func (stub *stub) connClosed(rpcc *ttrpc.Client) {
 	vhook.Point("stub.connclosed", stub)
 	stub.Lock()
-	stub.close()
+	// only tear down the session this notification belongs to
+	if stub.rpcc == rpcc {
+		stub.close()
+	}
 	stub.Unlock()
 	if stub.onClose != nil {
 		stub.onClose()
